@@ -320,9 +320,6 @@ pub fn run(tier: &str) -> i32 {
     let mut base: Vec<File> = vec![];
     base.extend(b.levels[0].iter().cloned());
     base.extend(b.levels[1].iter().cloned());
-    let l3 = &b.levels[2];
-    let step = if thorough { 1 } else { (l3.len() / 1200).max(1) };
-    base.extend(l3.iter().step_by(step).cloned());
     // literal-rich pool: every literal of the alphabet on the right of ==, in, <=
     for lit in lits_full() {
         for op in [BinOp::Eq, BinOp::In, BinOp::Le] {
@@ -353,6 +350,10 @@ pub fn run(tier: &str) -> i32 {
         base.push(file1(rule("r0", vec![vec![bin(q.clone(), BinOp::Eq, false, lit.clone())]])));
         base.push(file1(rule("r0", vec![vec![un(q.clone(), UnOp::Exists, false)], vec![bin(q, BinOp::Eq, true, lit)]])));
     }
+    // the largest BFS level last: a wall-clock cap on a loaded machine then cuts its tail and nothing else
+    let l3 = &b.levels[2];
+    let step = if thorough { 1 } else { (l3.len() / 1200).max(1) };
+    base.extend(l3.iter().step_by(step).cloned());
     // `some` variables with partly unresolved values referenced from two rules
     let docs = docs_quick();
     let mut docs2 = docs.clone();
